@@ -191,53 +191,75 @@ func runC12(c *Ctx) {
 
 	// ---- C12.3 -----------------------------------------------------------------
 	if f := c.NeedFunc("C12.3", "storage.(*fileStore).fetch"); f != nil {
-		var sw *ast.SwitchStmt
-		inspectBody(f.Decl.Body, func(n ast.Node) bool {
-			if s, ok := n.(*ast.SwitchStmt); ok && s.Tag != nil && sw == nil {
-				if ix, ok := ast.Unparen(s.Tag).(*ast.IndexExpr); ok {
-					if v := f.constOf(ix.Index); v != nil && v.String() == "0" {
-						sw = s
+		// the kind byte is byte 0 of the page buffer, possibly bound to a local first
+		kinds := map[string]bool{}
+		ast.Inspect(f.Decl.Body, func(n ast.Node) bool {
+			if ix, ok := n.(*ast.IndexExpr); ok {
+				if v := f.constOf(ix.Index); v != nil && v.String() == "0" {
+					if sl, ok := f.TypeOf(ix.X).Underlying().(*types.Slice); ok {
+						if b, ok := sl.Elem().Underlying().(*types.Basic); ok && b.Kind() == types.Uint8 {
+							kinds[exprKey(ix)] = true
+						}
 					}
 				}
 			}
 			return true
 		})
-		if sw == nil {
-			c.Undecided("C12.3", f.Name+"|dispatch", "fetch has no switch on byte 0 of the page")
-		} else {
-			want := map[string]string{"LeafNode": "true", "InternalNode": "false"}
-			got := map[string]bool{}
-			for _, s := range sw.Body.List {
-				cc := s.(*ast.CaseClause)
-				for _, e := range cc.List {
-					cst := f.namedConst(e)
-					if cst == nil {
-						continue
-					}
-					got[cst.Name()] = true
-					val := ""
-					for _, st := range cc.Body {
-						if as, ok := st.(*ast.AssignStmt); ok && len(as.Lhs) == 1 {
-							if sel, ok := ast.Unparen(as.Lhs[0]).(*ast.SelectorExpr); ok {
-								if v := fieldVar(f, sel); v != nil && v.Name() == "isLeaf" {
-									if cv := f.constOf(as.Rhs[0]); cv != nil {
-										val = cv.String()
-									}
-								}
-							}
-						}
-					}
-					key := f.Name + "|dispatch|" + cst.Name()
-					if w, known := want[cst.Name()]; known {
-						c.Check(val == w, "C12.3", key, cc.Pos(), "byte "+cst.Name()+" selects isLeaf="+w, "a page whose first byte is "+cst.Name()+" is decoded with isLeaf="+val)
-					}
+		ast.Inspect(f.Decl.Body, func(n ast.Node) bool {
+			if as, ok := n.(*ast.AssignStmt); ok && as.Tok == token.DEFINE && len(as.Lhs) == 1 && len(as.Rhs) == 1 && kinds[exprKey(as.Rhs[0])] {
+				kinds[exprKey(as.Lhs[0])] = true
+			}
+			return true
+		})
+		g := f.Graph()
+		holds := func(loc Loc, op token.Token, kind string) bool {
+			for k := range kinds {
+				if g.HoldsAt(loc, Rel{k, op, kind}) {
+					return true
 				}
 			}
-			for k := range want {
-				if !got[k] {
-					c.Fail("C12.3", f.Name+"|dispatch|"+k, sw.Pos(), "fetch has no case for page kind %s", k)
-				}
+			return false
+		}
+		nTrue := 0
+		idx := map[string]int{}
+		inspectBody(f.Decl.Body, func(n ast.Node) bool {
+			as, ok := n.(*ast.AssignStmt)
+			if !ok || len(as.Lhs) != 1 || len(as.Rhs) != 1 {
+				return true
 			}
+			sel, ok := ast.Unparen(as.Lhs[0]).(*ast.SelectorExpr)
+			if !ok {
+				return true
+			}
+			if v := fieldVar(f, sel); v == nil || v.Name() != "isLeaf" {
+				return true
+			}
+			cv := f.constOf(as.Rhs[0])
+			loc, located := g.Locate(as)
+			if cv == nil || !located {
+				c.Undecided("C12.3", f.Name+"|dispatch", "isLeaf is stored from a non-constant in fetch")
+				return true
+			}
+			if cv.String() == "true" {
+				nTrue++
+				key := f.Name + "|dispatch|LeafNode"
+				if idx[key]++; idx[key] > 1 {
+					key += "#" + itoa(idx[key])
+				}
+				c.Check(holds(loc, token.EQL, "LeafNode"), "C12.3", key, as.Pos(), "isLeaf=true is stored only where the kind byte is LeafNode", "a page is decoded as a leaf on a path where its kind byte is not known to be LeafNode")
+			} else {
+				key := f.Name + "|dispatch|InternalNode"
+				if idx[key]++; idx[key] > 1 {
+					key += "#" + itoa(idx[key])
+				}
+				c.Check(holds(loc, token.EQL, "InternalNode") || holds(loc, token.NEQ, "LeafNode"), "C12.3", key, as.Pos(), "isLeaf=false is stored only where the kind byte is InternalNode", "a page is decoded as an internal node on a path where its kind byte may be LeafNode")
+			}
+			return true
+		})
+		if len(kinds) == 0 {
+			c.Undecided("C12.3", f.Name+"|dispatch", "fetch does not look at byte 0 of the page")
+		} else if nTrue == 0 {
+			c.Fail("C12.3", f.Name+"|dispatch|LeafNode", f.Decl.Pos(), "fetch never selects the leaf decoder: leaf pages are decoded as internal nodes")
 		}
 	}
 	// first item of each encoder is the kind constant the decoder demands
